@@ -278,6 +278,37 @@ theorem allocAnc_inv {st st' : NSt} {e : Entry} (hi : NInv st)
 
 theorem NInv.init : NInv ⟨[], [], []⟩ := ⟨by simp, by simp, by simp⟩
 
+theorem danStep_fst (f : MField) (ax : AxSt) (acc : List (Entry × Option Entry)) (e : Entry) :
+    (danStep f ax acc e).map (·.1) = acc.map (·.1) ++ [e] := by
+  unfold danStep; simp
+
+theorem foldl_danStep_fst (f : MField) (ax : AxSt) (l : List Entry) (acc : List (Entry × Option Entry)) :
+    (l.foldl (danStep f ax) acc).map (·.1) = acc.map (·.1) ++ l := by
+  induction l generalizing acc with
+  | nil => simp
+  | cons e es ih => rw [List.foldl_cons, ih, danStep_fst]; simp
+
+/-- The plan lists the domain ancillaries in key order. -/
+theorem danPlan_fst (f : MField) (ax : AxSt) : (danPlan f ax).map (·.1) = sortEntries (f.ofType .dan) := by
+  unfold danPlan; rw [foldl_danStep_fst]; simp
+
+theorem allocDan_inv {f : MField} {st st' : NSt} {pe : Entry × Option Entry} (hp : pe.2 = none) (hi : NInv st)
+    (h : allocDan f st pe = .ok st') : NInv st' ∧ Ext st st' (coordSlots pe.1) := by
+  unfold allocDan at h
+  rw [hp] at h
+  exact allocCoord_inv hi h
+
+theorem allocGM_inv {st st' : NSt} {kr : Key × MRef} (hi : NInv st)
+    (h : allocGM st kr = .ok st') : NInv st' ∧ Ext st st' [.gm kr.1] := by
+  unfold allocGM at h
+  split at h
+  · cases h
+  · rename_i st1 h1
+    split at h
+    · cases h
+    · cases h
+      obtain ⟨a, b, _⟩ := allocName_inv hi h1; exact ⟨a, b⟩
+
 /-- What the structural proof needs of the names. -/
 structure GoodNames (f : MField) (ax : AxSt) (names : List (Slot × String)) : Prop where
   inj : ∀ p ∈ names, ∀ q ∈ names, p.2 = q.2 → p.1 = q.1 ∨ (p.1.isBdim = true ∧ q.1.isBdim = true)
@@ -286,9 +317,16 @@ structure GoodNames (f : MField) (ax : AxSt) (names : List (Slot × String)) : P
   msr : ∀ e ∈ f.ofType .msr, Slot.con e.key ∈ slotsOf names
   fan : ∀ e ∈ f.ofType .fan, Slot.con e.key ∈ slotsOf names
   field : Slot.field ∈ slotsOf names
+  dan : ∀ e ∈ f.ofType .dan, ∀ s ∈ coordSlots e, s ∈ slotsOf names
+  gm : ∀ g ∈ gmRefs f, Slot.gm g.1 ∈ slotsOf names
+  /-- no domain ancillary is a variable that is already in the file -/
+  plan : ∀ pe ∈ danPlan f ax, pe.2 = none
 
+/-- The names the writer hands out are good, when no domain ancillary is a variable that is already
+in the file (`danPlan`). -/
 theorem naming_good {f : MField} {ax : AxSt} {names : List (Slot × String)}
-    (hx : ∀ e ∈ f.ofType .msr, e.con.external = false) (h : naming f ax = .ok names) : GoodNames f ax names := by
+    (hx : ∀ e ∈ f.ofType .msr, e.con.external = false) (hns : ∀ pe ∈ danPlan f ax, pe.2 = none)
+    (h : naming f ax = .ok names) : GoodNames f ax names := by
   unfold naming at h
   split at h
   · cases h
@@ -298,36 +336,54 @@ theorem naming_good {f : MField} {ax : AxSt} {names : List (Slot × String)}
     · rename_i s2 h2
       split at h
       · cases h
-      · rename_i s3 h3
+      · rename_i s2d h2d
         split at h
         · cases h
-        · rename_i s4 h4
+        · rename_i s3 h3
           split at h
           · cases h
-          · rename_i s5 h5
-            cases h
-            obtain ⟨i1, e1⟩ := foldlE_inv (allocAxis f) axisSlots ax.roles
-              (fun a _ s s' hs hh => allocAxis_inv hs hh) NInv.init h1
-            obtain ⟨i2, e2⟩ := foldlE_inv (allocAux ax.dataLocal) coordSlots (sortEntries (f.ofType .aux))
-              (fun a _ s s' hs hh => by unfold allocAux at hh; exact allocCoord_inv hs hh) i1 h2
-            obtain ⟨i3, e3⟩ := foldlE_inv allocMeasure (fun e => [Slot.con e.key]) (sortEntries (f.ofType .msr))
-              (fun a ha s s' hs hh => allocMeasure_inv (hx a (mem_sortEntries.mp ha)) hs hh) i2 h3
-            obtain ⟨i4, e4⟩ := foldlE_inv allocAnc (fun e => [Slot.con e.key]) (f.ofType .fan)
-              (fun a _ s s' hs hh => allocAnc_inv hs hh) i3 h4
-            obtain ⟨i5, e5, _⟩ := allocName_inv i4 h5
-            have e45 := e4.trans e5
-            have e345 := e3.trans e45
-            have e2345 := e2.trans e345
-            refine ⟨i5.inj, ?_, ?_, ?_, ?_, ?_⟩
-            · intro ar har s hs
-              exact e2345.mono (e1.has s (List.mem_flatMap.mpr ⟨ar, har, hs⟩))
-            · intro e he s hs
-              exact e345.mono (e2.has s (List.mem_flatMap.mpr ⟨e, mem_sortEntries.mpr he, hs⟩))
-            · intro e he
-              exact e45.mono (e3.has _ (List.mem_flatMap.mpr ⟨e, mem_sortEntries.mpr he, List.mem_singleton_self _⟩))
-            · intro e he
-              exact e5.mono (e4.has _ (List.mem_flatMap.mpr ⟨e, he, List.mem_singleton_self _⟩))
-            · exact e5.has _ (List.mem_singleton_self _)
+          · rename_i s3g h3g
+            split at h
+            · cases h
+            · rename_i s4 h4
+              split at h
+              · cases h
+              · rename_i s5 h5
+                cases h
+                obtain ⟨i1, e1⟩ := foldlE_inv (allocAxis f) axisSlots ax.roles
+                  (fun a _ s s' hs hh => allocAxis_inv hs hh) NInv.init h1
+                obtain ⟨i2, e2⟩ := foldlE_inv (allocAux ax.dataLocal) coordSlots (sortEntries (f.ofType .aux))
+                  (fun a _ s s' hs hh => by unfold allocAux at hh; exact allocCoord_inv hs hh) i1 h2
+                obtain ⟨i2d, e2d⟩ := foldlE_inv (allocDan f) (fun pe => coordSlots pe.1) (danPlan f ax)
+                  (fun a ha s s' hs hh => allocDan_inv (hns a ha) hs hh) i2 h2d
+                obtain ⟨i3, e3⟩ := foldlE_inv allocMeasure (fun e => [Slot.con e.key]) (sortEntries (f.ofType .msr))
+                  (fun a ha s s' hs hh => allocMeasure_inv (hx a (mem_sortEntries.mp ha)) hs hh) i2d h3
+                obtain ⟨i3g, e3g⟩ := foldlE_inv allocGM (fun g => [Slot.gm g.1]) (gmRefs f)
+                  (fun a _ s s' hs hh => allocGM_inv hs hh) i3 h3g
+                obtain ⟨i4, e4⟩ := foldlE_inv allocAnc (fun e => [Slot.con e.key]) (f.ofType .fan)
+                  (fun a _ s s' hs hh => allocAnc_inv hs hh) i3g h4
+                obtain ⟨i5, e5, _⟩ := allocName_inv i4 h5
+                have e45 := e4.trans e5
+                have e3g45 := e3g.trans e45
+                have e345 := e3.trans e3g45
+                have e2d345 := e2d.trans e345
+                have e2345 := e2.trans e2d345
+                refine ⟨i5.inj, ?_, ?_, ?_, ?_, ?_, ?_, ?_, hns⟩
+                · intro ar har s hs
+                  exact e2345.mono (e1.has s (List.mem_flatMap.mpr ⟨ar, har, hs⟩))
+                · intro e he s hs
+                  exact e2d345.mono (e2.has s (List.mem_flatMap.mpr ⟨e, mem_sortEntries.mpr he, hs⟩))
+                · intro e he
+                  exact e3g45.mono (e3.has _ (List.mem_flatMap.mpr ⟨e, mem_sortEntries.mpr he, List.mem_singleton_self _⟩))
+                · intro e he
+                  exact e5.mono (e4.has _ (List.mem_flatMap.mpr ⟨e, he, List.mem_singleton_self _⟩))
+                · exact e5.has _ (List.mem_singleton_self _)
+                · intro e he s hs
+                  have hm : e ∈ (danPlan f ax).map (·.1) := by rw [danPlan_fst]; exact mem_sortEntries.mpr he
+                  obtain ⟨pe, hpe, rfl⟩ := List.mem_map.mp hm
+                  exact e345.mono (e2d.has s (List.mem_flatMap.mpr ⟨pe, hpe, hs⟩))
+                · intro g hg
+                  exact e45.mono (e3g.has _ (List.mem_flatMap.mpr ⟨g, hg, List.mem_singleton_self _⟩))
 
 /-- Two named slots with the same name are the same slot, unless both are bounds dimensions. -/
 theorem GoodNames.nameOf_inj {f : MField} {ax : AxSt} {names : List (Slot × String)} (g : GoodNames f ax names)
